@@ -1480,7 +1480,7 @@ Proof. left. reflexivity. Qed.
 Lemma stable_bind {X Y} (m m' : pres X) (k k' : X -> walker -> pres Y) :
   stable m m' -> (forall a w, stable (k a w) (k' a w)) -> stable (bind m k) (bind m' k').
 Proof.
-  intros [->|->] Hk; [left; reflexivity|]. destruct m as [a w| |]; cbn [bind]; [apply Hk | right; reflexivity | left; reflexivity].
+  intros [E|E] Hk; subst; [left; reflexivity|]. destruct m as [a w| |]; cbn [bind]; [apply Hk | right; reflexivity | left; reflexivity].
 Qed.
 
 Ltac stab_core IHtac :=
@@ -1539,3 +1539,111 @@ Qed.
 Lemma gparse_expr_stable f d w : stable (gparse_expr h f d w) (gparse_expr h' (S f) d w).
 Proof. destruct (sinv_all f) as (H & _). apply H. Qed.
 End ExprStable.
+
+Lemma parse_dots_stable : forall f w l sp, stable (parse_dots f w l sp) (parse_dots (S f) w l sp).
+Proof.
+  induction f as [|f IH]; intros; [apply stable_fuel|].
+  rewrite (parse_dots_S f), (parse_dots_S (S f)). stab_core ltac:(apply IH).
+Qed.
+Lemma fn_params_stable : forall f w acc, stable (fn_params f w acc) (fn_params (S f) w acc).
+Proof.
+  induction f as [|f IH]; intros; [apply stable_fuel|].
+  rewrite (fn_params_S f), (fn_params_S (S f)). stab_core ltac:(apply IH).
+Qed.
+Lemma apattern_stable : forall f is_sub w sp pat, stable (apattern f is_sub w sp pat) (apattern (S f) is_sub w sp pat).
+Proof.
+  induction f as [|f IH]; intros; [apply stable_fuel|].
+  rewrite (apattern_S f), (apattern_S (S f)). stab_core ltac:(apply IH).
+Qed.
+
+Section DirStable.
+Variables h h' : walker -> pres (span * list anode).
+Hypothesis Hh : forall w, stable (h w) (h' w).
+Variable f : nat.
+
+Lemma pexpr_stable w : stable (pexpr h f w) (pexpr h' (S f) w).
+Proof. unfold pexpr. apply gparse_expr_stable. exact Hh. Qed.
+
+Ltac dstab extra :=
+  stab_core ltac:(first [apply pexpr_stable | apply parse_dots_stable | apply fn_params_stable | apply apattern_stable | extra]).
+
+Lemma data_elems_stable : forall g w acc, stable (data_elems h f g w acc) (data_elems h' (S f) (S g) w acc).
+Proof.
+  induction g as [|g IH]; intros; [apply stable_fuel|].
+  rewrite (data_elems_S h f g), (data_elems_S h' (S f) (S g)). dstab ltac:(apply IH).
+Qed.
+Lemma parse_fields_stable : forall g w acc, stable (parse_fields h f g w acc) (parse_fields h' (S f) (S g) w acc).
+Proof.
+  induction g as [|g IH]; intros; [apply stable_fuel|].
+  rewrite (parse_fields_S h f g), (parse_fields_S h' (S f) (S g)). dstab ltac:(apply IH).
+Qed.
+Lemma parse_arule_stable is_sub w : stable (parse_arule h f is_sub w) (parse_arule h' (S f) is_sub w).
+Proof. unfold parse_arule. dstab fail. Qed.
+Lemma parse_arules_stable : forall g is_sub w acc, stable (parse_arules h f g is_sub w acc) (parse_arules h' (S f) (S g) is_sub w acc).
+Proof.
+  induction g as [|g IH]; intros; [apply stable_fuel|].
+  rewrite (parse_arules_S h f g), (parse_arules_S h' (S f) (S g)). dstab ltac:(first [apply parse_arule_stable | apply IH]).
+Qed.
+
+Lemma parse_symbol_stable w : stable (parse_symbol h f w) (parse_symbol h' (S f) w).
+Proof. unfold parse_symbol. dstab fail. Qed.
+Lemma parse_directive_stable k header w : stable (parse_directive h f k header w) (parse_directive h' (S f) k header w).
+Proof.
+  destruct k; cbn [parse_directive]; unfold expr_directive, parse_bankdef, parse_const, parse_fn, parse_ruledef;
+    dstab ltac:(first [apply data_elems_stable | apply parse_fields_stable | apply parse_arules_stable]).
+Qed.
+End DirStable.
+
+Definition kstab (f : nat) : Prop :=
+  (forall bd nested w acc, stable (parse_lines f bd nested w acc) (parse_lines (S f) bd nested w acc)) /\
+  (forall bd w, stable (parse_line f bd w) (parse_line (S f) bd w)) /\
+  (forall bd header w, stable (parse_if f bd header w) (parse_if (S f) bd header w)) /\
+  (forall bd w, stable (parse_braced f bd w) (parse_braced (S f) bd w)) /\
+  (forall bd w, stable (parse_else f bd w) (parse_else (S f) bd w)) /\
+  (forall bd w, stable (asm_hook f bd w) (asm_hook (S f) bd w)).
+
+Lemma kstab_all f : kstab f.
+Proof.
+  induction f as [|f IH].
+  - unfold kstab. repeat split; intros; apply stable_fuel.
+  - destruct IH as (K1 & K2 & K3 & K4 & K5 & K6).
+    unfold kstab. repeat match goal with |- _ /\ _ => split end; intros.
+    + rewrite (parse_lines_S f), (parse_lines_S (S f)). stab_core ltac:(first [apply K2 | apply K1]).
+    + rewrite (parse_line_S f), (parse_line_S (S f)).
+      stab_core ltac:(first [apply K3 | apply parse_directive_stable; intros; apply K6 | apply parse_symbol_stable; intros; apply K6]).
+    + rewrite (parse_if_S f), (parse_if_S (S f)).
+      stab_core ltac:(first [apply gparse_expr_stable; intros; apply K6 | apply K4 | apply K5]).
+    + rewrite (parse_braced_S f), (parse_braced_S (S f)). stab_core ltac:(first [apply K1]).
+    + rewrite (parse_else_S f), (parse_else_S (S f)). stab_core ltac:(first [apply K4 | apply K3]).
+    + rewrite (asm_hook_S f), (asm_hook_S (S f)). stab_core fail.
+      match goal with |- stable (match parse_lines f ?b ?n ?i ?a with _ => _ end) _ =>
+        destruct (K1 b n i a) as [E|E]; [rewrite E; apply stable_fuel | rewrite E] end.
+      stab_core fail.
+Qed.
+
+Lemma parse_lines_stable_le : forall f f', (f <= f')%nat -> forall bd nested w acc,
+  parse_lines f bd nested w acc <> PFuel -> parse_lines f' bd nested w acc = parse_lines f bd nested w acc.
+Proof.
+  induction 1 as [|f' Hle IH]; intros bd nested w acc Hne; [reflexivity|].
+  destruct (kstab_all f') as (K1 & _). destruct (K1 bd nested w acc) as [E|E].
+  - exfalso. apply Hne. rewrite <- (IH _ _ _ _ Hne). exact E.
+  - rewrite E. apply IH. exact Hne.
+Qed.
+
+(* C03 (partial): the fuel of parse_file is only a termination device.  Whenever ANY amount of fuel lets the line
+   parser answer (accept or reject), every larger amount gives the very same answer; in particular if parse_file t
+   answers, no larger fuel changes the answer, and if some smaller fuel answers, parse_file t gives that answer.
+   What is missing for C03_parse_total: a proof that file_fuel t is always enough (measured by the stream: the worst
+   case needs < 13 % of it). *)
+Theorem C03_parse_total_partial : forall t f f', (f <= f')%nat ->
+  parse_lines f 0 false (start_walker t) [] <> PFuel ->
+  parse_lines f' 0 false (start_walker t) [] = parse_lines f 0 false (start_walker t) [].
+Proof. intros t f f' Hle Hne. apply parse_lines_stable_le; assumption. Qed.
+
+Corollary C03_parse_file_fuel_independent : forall t f, (f <= file_fuel t)%nat ->
+  parse_lines f 0 false (start_walker t) [] <> PFuel -> parse_file t = parse_lines f 0 false (start_walker t) [].
+Proof. intros t f Hle Hne. unfold parse_file. apply parse_lines_stable_le; assumption. Qed.
+
+Example C03_parse_total_nonvacuous :
+  parse_lines 40 0 false (start_walker sample_text) [] <> PFuel /\ parse_lines 10 0 false (start_walker sample_text) [] = PFuel.
+Proof. split; vm_compute; [discriminate | reflexivity]. Qed.
